@@ -192,6 +192,10 @@ func groupRun(w *World) {
 	}
 	// actual outcome of each member (a waiter / aware member may have failed with the context error)
 	failed := func(m *gmember) bool { return m.err != nil }
+	// With lazily scheduled library goroutines the goroutine that runs a member can be held up between the member's
+	// return and the hand-over of its response, so the order in which the executor observes responses is not the order
+	// in which the members returned; the checks that rely on that order are replaced by their order-free versions.
+	lazy := w.LazyGoroutines()
 	resultAt := func(i int) proto.Message {
 		if useSingle {
 			if i == singleI {
@@ -241,8 +245,21 @@ func groupRun(w *World) {
 			bad("wrong-verdict", fmt.Sprintf("%d of %d members failed, allowed %d: expected failure=%v, got err=%v", nfail, n, allowed, wantFail, err))
 			return
 		}
-		if wantFail && !errors.Is(err, firstErr) {
+		if wantFail && !lazy && !errors.Is(err, firstErr) {
 			bad("wrong-error", fmt.Sprintf("the returned error is %v, the first error observed was %v", err, firstErr))
+		}
+		if wantFail && lazy {
+			// which failure the executor observes first is not the order in which the members returned: a member's
+			// goroutine may be held up between the member's return and handing over its response
+			any := false
+			for _, m := range ms {
+				if failed(m) && errors.Is(err, m.err) {
+					any = true
+				}
+			}
+			if !any {
+				bad("wrong-error", fmt.Sprintf("the returned error %v is not the error of any member", err))
+			}
 		}
 		if !useSingle && len(results) != n {
 			bad("wrong-results", fmt.Sprintf("%d results for %d members", len(results), n))
@@ -257,8 +274,24 @@ func groupRun(w *World) {
 			}
 		}
 		// cancellation
+		for _, m := range ms {
+			if !lazy || rescued {
+				break
+			}
+			// lazily scheduled member goroutines: a cancelled context proves that the failure was decided, for which more
+			// than the allowed number of members must have failed before this member looked at its context
+			before := 0
+			for _, o := range ms {
+				if failed(o) && o.retSeq != 0 && o.retSeq < m.invSeq {
+					before++
+				}
+			}
+			if m.ctxDone && before <= allowed {
+				bad("cancelled-early", fmt.Sprintf("member %d found its context cancelled when only %d members had failed (allowed %d)", m.idx, before, allowed))
+			}
+		}
 		for pos, m := range order {
-			if rescued {
+			if rescued || lazy {
 				break
 			}
 			if decidedAt >= 0 && pos > decidedAt && !m.ctxDone && m.invSeq > order[decidedAt].retSeq {
@@ -304,6 +337,69 @@ func groupRun(w *World) {
 			}
 		}
 	case 4, 5:
+		if lazy {
+			// The response the executor sees first need not be that of the member that returned first (see above): any
+			// member that had returned by the time the call returned may have decided it.
+			if n == 0 {
+				if err == nil {
+					bad("wrong-verdict", "no members, but no error either")
+				}
+				break
+			}
+			okBy := func(m *gmember) bool {
+				if m.retSeq == 0 || m.retSeq > retSeq {
+					return false
+				}
+				if failed(m) {
+					return eff == 5 && err != nil && errors.Is(err, m.err)
+				}
+				if err != nil || !proto.Equal(resultAt(m.idx), m.msg) {
+					return false
+				}
+				for _, o := range ms {
+					if o != m && resultAt(o.idx) != nil {
+						return false
+					}
+				}
+				return true
+			}
+			explained := false
+			for _, m := range ms {
+				if okBy(m) {
+					explained = true
+				}
+			}
+			if eff == 4 && err != nil {
+				// Fast errs only if every member failed (and so had returned), with one of their errors
+				explained = true
+				for _, m := range ms {
+					if m.retSeq == 0 || m.retSeq > retSeq {
+						bad("returned-early", fmt.Sprintf("Fast returned an error before member %d had returned", m.idx))
+						return
+					}
+					if !failed(m) {
+						explained = false
+					}
+				}
+				if explained {
+					explained = false
+					for _, m := range ms {
+						if errors.Is(err, m.err) {
+							explained = true
+						}
+					}
+				}
+			}
+			if !explained {
+				bad("wrong-verdict", fmt.Sprintf("no member's response explains the call's outcome err=%v", err))
+			}
+			for _, m := range ms {
+				if m.invoked && m.invSeq > retSeq && !m.ctxDone {
+					bad("not-cancelled", fmt.Sprintf("member %d ran after the call had returned but its context was not cancelled", m.idx))
+				}
+			}
+			break
+		}
 		// Fast: first success in completion order; errs only if all fail. Race: first response.
 		var decider *gmember
 		for _, m := range order {
